@@ -2,7 +2,7 @@
 # part: name, pkg (dir under harness/), race (build with the race detector),
 #       run (go test -run regexp), timeout {tier: seconds}, tiers (restrict), args.
 
-def P(name, pkg, race=False, run=None, quick=1500, thorough=14400, tiers=None, args=None):
+def P(name, pkg, race=False, run=None, quick=1500, thorough=14400, tiers=None, args=None, fuzz=None):
     d = {"name": name, "pkg": pkg, "race": race, "timeout": {"quick": quick, "thorough": thorough}}
     if run:
         d["run"] = run
@@ -10,9 +10,13 @@ def P(name, pkg, race=False, run=None, quick=1500, thorough=14400, tiers=None, a
         d["tiers"] = tiers
     if args:
         d["args"] = args
+    if fuzz:
+        d["fuzz"] = fuzz
     return d
 
 PROPS = {
+    "C20": {"level": "exploration", "parts": [P("main", "c20", run="^TestC20$"),
+                                              P("fuzz", "c20", tiers=["thorough"], fuzz={"target": "FuzzResolvers", "execs": {"quick": 100000, "thorough": 2000000}})]},
     "C16": {"level": "exploration", "parts": [P("main", "c16", run="^TestC16$")]},
     "C01": {"level": "exploration", "parts": [P("main", "c01", run="^TestC01$")]},
     "C02": {"level": "exploration", "parts": [P("main", "c02", run="^TestC02$")]},
